@@ -3,6 +3,8 @@ package checks
 import (
 	"fmt"
 
+	vgirpc "github.com/Query-farm/vgi-rpc-go/vgirpc"
+
 	"verifsim/hx"
 	"verifsim/simkern"
 	"verifsim/worlds/httpw"
@@ -41,7 +43,25 @@ func C14(e *simkern.Env) {
 		sim := simkern.NewSim(tp, e.Trace)
 		defer sim.Close()
 		hx.Rec.Reset()
-		cl := httpw.NewCluster(httpw.Config{Key: []byte("0123456789abcdef0123456789abcdef"), CacheSizes: caches, BatchLimit: batchLimit, NoTwin: true})
+		// the operator's rehydrate callback is "the other method's code" too: it
+		// is handed (state, method) for every continuation the server accepts.
+		// It records the call against the state's stream, and in half of the runs
+		// it refuses a state whose stream was opened by another method (what a
+		// real rehydrator that re-attaches method-specific resources does).
+		strictRehydrate := tp.Bool(1, 2)
+		e.Knob("rehydrate_strict", strictRehydrate)
+		openedBy := map[int64]string{}
+		setup := func(i int, srv *vgirpc.Server, h *vgirpc.HttpServer) {
+			h.SetRehydrateFunc(func(state interface{}, method string) error {
+				n := hx.StateNonce(state)
+				hx.Rec.With(n, func(c *hx.CallRec) { c.Rehydrates++ })
+				if strictRehydrate && openedBy[n] != "" && openedBy[n] != method {
+					return fmt.Errorf("rehydrate: state of %s handed to %s", openedBy[n], method)
+				}
+				return nil
+			})
+		}
+		cl := httpw.NewCluster(httpw.Config{Key: []byte("0123456789abcdef0123456789abcdef"), CacheSizes: caches, BatchLimit: batchLimit, NoTwin: true, Setup: setup})
 		clients := 1 + tp.Draw(2)
 		for c := 0; c < clients; c++ {
 			c := c
@@ -62,6 +82,7 @@ func C14(e *simkern.Env) {
 						sc.Turns = append(sc.Turns, hx.Step{Act: "emit"})
 					}
 					op := &pipew.Op{Kind: "stream", Method: x.name, Script: sc, StreamKind: x.kind, CancelAt: -1}
+					openedBy[nonce] = x.name
 					inst := cl.Inst[tp.Draw(len(cl.Inst))]
 					t := httpw.Decode(httpw.Post(inst, "/"+x.name+"/init", pipew.RequestBytes(op), httpw.Ident{}, nil))
 					if t.Cursor == "" || t.Call == "" {
@@ -96,6 +117,10 @@ func C14(e *simkern.Env) {
 						return
 					}
 					ran := (after.ProduceCalls + after.ExchangeCalls + after.CancelCalls) - (before.ProduceCalls + before.ExchangeCalls + before.CancelCalls)
+					if after.Rehydrates != before.Rehydrates {
+						e.Violate("foreign-state-rehydrated", site, "tokens of %s posted to %s/exchange: the rehydrate callback ran %d time(s) for %s on the foreign state (status %d)", x.name, y.name, after.Rehydrates-before.Rehydrates, y.name, resp.Status)
+						return
+					}
 					if ran != 0 {
 						e.Violate("foreign-state-executed", site, "tokens of %s posted to %s/exchange: %d state method calls ran on the foreign state (status %d)", x.name, y.name, ran, resp.Status)
 						return
